@@ -28,7 +28,8 @@ def describe(case):
         st = render.Style(variant=s.get('variant', 0), rng=random.Random(s.get('seed', 0)),
                           definer=s.get('definer', '='), sep=s.get('sep', '\n'),
                           comments=s.get('comments', False), ignore_kw=s.get('ignore_kw', 'ignore'),
-                          bare_start=s.get('bare_start', False), parens=s.get('parens', False))
+                          bare_start=s.get('bare_start', False), parens=s.get('parens', False),
+                          break_ops=s.get('break_ops', False))
     return render.grammar(case['g'], st, bm=cfg.get('bytes', False), name=cfg.get('name'),
                           ign_first=cfg.get('ign_first', False), ign_names=cfg.get('ign_names'),
                           order=cfg.get('order'))
@@ -163,7 +164,7 @@ def run_real(cases, fn='observe_case', hooks=False, batch=25, confirm_timeouts=T
             if o is not None and _has_timeout(o):
                 c2 = dict(c)
                 cfg = dict(c.get('cfg') or {})
-                cfg['timeout_scale'] = 6
+                cfg['timeout_scale'] = 6 * cfg.get('timeout_scale', 1)
                 c2['cfg'] = cfg
                 again.append(c2)
         if again:
